@@ -62,3 +62,5 @@ Definition default_sflags : sflags :=
 Lemma default_rflags_safe : import_custom default_rflags = false /\ inst_custom default_rflags = false.
 Proof. split; reflexivity. Qed.
 Definition local_major_gen : text := txt Gen_vinegar.version_major.
+(* how the current tree reads a class out of an already imported module (see Vinegar.lookup_mode) *)
+Definition Mgen : lookup_mode := Gen_vinegar.load_lookup_mode.
